@@ -67,9 +67,20 @@ def real_parse(model, text, start):
         return ('exc', type(e).__name__, str(e)[:160])
 
 
+INTERNAL_KEY = '__vallue__'  # tatsu.contexts.state._AT_: must never show in a result
+
+
+def has_internal_key(v):
+    if isinstance(v, dict):
+        return INTERNAL_KEY in v or any(has_internal_key(x) for x in v.values())
+    if isinstance(v, (list, tuple)):
+        return any(has_internal_key(x) for x in v)
+    return False
+
+
 def agrees(o, r):
     if o.ok:
-        return r[0] == 'ok' and S.same_value(o.value, r[1])
+        return r[0] == 'ok' and S.same_value(o.value, r[1]) and not has_internal_key(r[1])
     return r[0] == 'fail'
 
 
@@ -112,6 +123,8 @@ def classify(d, text, start, cfg, r, hint=None):
     """name the class of a failure (see module doc)"""
     if r[0] == 'exc':
         return 'raises-' + r[1], None
+    if r[0] == 'ok' and has_internal_key(r[1]):
+        return 'internal-override-key-in-ast', None
     if hint and _admissible(d, text, start, cfg, r, True, deviations=hint) is not None:
         return '+'.join(hint), hint
     for devs in _DEV_SETS:
@@ -160,7 +173,8 @@ def check_case(d, model, cfg, text, start, stats, failures, cfgname, keep=40, su
     r = real_parse(model, text, start)
     pol = None
     if not agrees(o, r):
-        pol = _admissible(d, text, start, cfg, r, info['open']) if r[0] != 'exc' else None
+        rescue = r[0] != 'exc' and not (r[0] == 'ok' and has_internal_key(r[1]))
+        pol = _admissible(d, text, start, cfg, r, info['open']) if rescue else None
         if pol is None:
             _fail(d, cfg, cfgname, text, start, o, r, stats, failures, keep, 'result', suppress)
             return
@@ -184,14 +198,14 @@ def check_case(d, model, cfg, text, start, stats, failures, cfgname, keep=40, su
 
 
 def _fail(d, cfg, cfgname, text, start, o, r, stats, failures, keep, what, suppress=None):
-    if suppress is not None and suppress(d, cfg, text, start, o, r):
-        stats['suppressed'] += 1
-        return
-    stats['failed'] += 1
     hints = stats.setdefault('_hints', {})
     cls, devs = classify(d, text, start, cfg, r, hints.get((d, cfgname)))
     if devs:
         hints[(d, cfgname)] = devs
+    if suppress is not None and suppress(d, cfg, text, start, o, r, cls):
+        stats['suppressed'] += 1
+        return
+    stats['failed'] += 1
     if what == 'consumed' and cls.startswith('unexplained'):
         cls = 'consumed-length-differs'
     n = stats['by_class'].get(cls, 0)
@@ -240,6 +254,8 @@ def work(job):
             cfg = CONFIGS[cfgname] if isinstance(cfgname, str) else dict(cfgname)
             name = cfgname if isinstance(cfgname, str) else 'custom'
             for start in starts:
+                if start == '@last':  # the last rule of the description, named explicitly
+                    start = d[-1][0]
                 dt = with_top(d, start)
                 try:
                     model = S.to_model(dt, **cfg)
@@ -578,14 +594,20 @@ def run(tier='quick', seed=0, info=None):
                   'and every operator x configuration B x the 23 inputs IN_MID (all over {a,b} of length <= 3, '
                   'and a blank before / after / between one or two letters)',
            bound='4 nodes, 23 inputs of length <= 3', exhaustive=True)
-        go('two-rule', two_rule(2, 2), [('B', IN_MID, (None,))],
+        go('two-rule', two_rule(2, 2), [('B', IN_MID, (None,)), ('B', G.inputs('ab ', 2), ('@last',))],
            domain='`start = e` with e of <= 2 nodes calling a second rule named r (skips whitespace at entry) or '
-                  'R (does not), whose body has <= 2 nodes (full leaf alphabet) x configuration B x IN_MID',
+                  'R (does not), whose body has <= 2 nodes (full leaf alphabet) x configuration B x IN_MID from the '
+                  "first rule, and all inputs over {a,b,' '} of length <= 2 with start=<second rule>",
            bound='<= 2 + 2 nodes, 23 inputs of length <= 3', exhaustive=True)
         go('two-rule-3-core', two_rule(3, 0, 'core', exact=True, callees=CALLEES), [('B', IN_MID, (None,))],
            domain='`start = e` with e of exactly 3 nodes (core leaves) calling r / R whose body is one of the 11 '
                   'CALLEES (one per value shape) x configuration B x IN_MID',
            bound='3 nodes + curated callee, 23 inputs of length <= 3', exhaustive=True)
+        go('names-in-scopes-5', G.named_in_scopes(5), [('B', G.inputs('ab', 3), (None,))],
+           domain="every grammar `start = e` with e of exactly 5 nodes over the tokens 'a' 'b' that has a name / "
+                  'override and an optional / closure / choice (no joins, lookaheads, skip-to, (?: )) x configuration B '
+                  'x all inputs over {a,b} of length <= 3',
+           bound='5 nodes, input length <= 3', exhaustive=True)
         go('token-rule-start', single_rule(3, 'core', name='R'), [('B', in3, (None,)), ('A', adjacent(in3), (None,))],
            domain='every grammar `R = e` (upper-case start rule: no whitespace skipped at entry) with e of <= 3 '
                   "nodes over the core leaves x configurations B, A x all inputs over {a,b,' '} of length <= 3",
@@ -597,7 +619,7 @@ def run(tier='quick', seed=0, info=None):
                   "x configurations B (all inputs over {a,b,' '} <= 4), A (inputs <= 3 where two letters touch), C "
                   '(inputs <= 3 containing a blank)',
            bound='<= 4 nodes, input length <= 4', exhaustive=True, budget=Budget(budget.left() * 0.55), chunk=JOBS * 16)
-        go('two-rule', two_rule(3, 2, 'full', 'core'), [('B', in3, (None,))],
+        go('two-rule', two_rule(3, 2, 'full', 'core'), [('B', in3, (None,)), ('B', G.inputs('ab ', 2), ('@last',))],
            domain='`start = e` with e of <= 3 nodes (full leaves) calling r / R whose body has <= 2 nodes (core '
                   "leaves) x configuration B x all inputs over {a,b,' '} <= 3",
            bound='<= 3 + 2 nodes, input length <= 3', exhaustive=True, budget=Budget(budget.left() * 0.6),
@@ -607,6 +629,11 @@ def run(tier='quick', seed=0, info=None):
            domain='`start = e` with e of exactly 3 nodes (full leaves) calling r / R whose body is one of the 11 '
                   'CALLEES x configurations B (IN_MID), C (inputs <= 3 containing a blank)',
            bound='3 nodes + curated callee', exhaustive=True, budget=Budget(budget.left() * 0.5), chunk=JOBS * 8)
+        go('names-in-scopes-5', G.named_in_scopes(5, wide=True), [('B', in3, (None,))],
+           domain="every grammar `start = e` with e of exactly 5 nodes over the tokens 'a' 'b' that has a name / "
+                  "override and an optional / closure / choice / join x configuration B x all inputs over {a,b,' '} "
+                  'of length <= 3',
+           bound='5 nodes, input length <= 3', exhaustive=True, budget=Budget(budget.left() * 0.5), chunk=JOBS * 8)
         go('token-rule-start', single_rule(3, name='R'), [('B', in4, (None,)), ('A', adjacent(in4), (None,))],
            domain='every grammar `R = e` (upper-case start rule) with e of <= 3 nodes (full leaves) x '
                   'configurations B, A x all inputs <= 4',
